@@ -67,7 +67,7 @@ func runRoute(t *testing.T, c spec.Case, e Em) {
 				x, err := vp.MuxAccept(am, id, nonceA, it.Len)
 				o.PeerID, o.PeerNonce, o.PayloadOK, o.Extra, o.Err = x.PeerID, x.PeerNonce, x.PayloadOK, x.Extra, errStr(err)
 			} else {
-				h := vp.GRPCAcceptServe(ag, id, nonceA)
+				h := vp.GRPCAcceptServe(ag, id, nonceA, time.Duration(it.SlowMs)*time.Millisecond)
 				connsMu.Lock()
 				handles = append(handles, h)
 				connsMu.Unlock()
